@@ -28,6 +28,12 @@ def run(ctx, whats, nbeh, depth, judge="C07"):
         return {"c": op, "id": id, "v": v}
     behs[5] = [c("arm"), c("create", 2, 1), c("create", 1, 1), c("addX", 1), c("td", 1), c("release"), c("wait"),
                c("arm"), c("update", 2, 2), c("remX", 1), c("destroy", 1), c("release"), c("wait")]
+    # the same beginning, but nobody destroys the input: once the foreign finalizer is gone the controller must clean the output up
+    # although the input never carried its finalizer (configurations 5 and 8: ignore-teardown-until / -while; 11 configurations)
+    for idx in (16, 19):
+        if len(behs) > idx:
+            behs[idx] = [c("arm"), c("create", 2, 1), c("create", 1, 1), c("addX", 1), c("td", 1), c("release"), c("wait"),
+                         c("remX", 1), c("wait")]
     ctx.cov["directed_known_finding_scenarios"] = 1
     ctx.cov["behaviours_replayed"] = len(behs)
     ctx.sample({"external_ops_head": behs[0][:10]})
